@@ -120,7 +120,9 @@ def _work(units):
             _, v, labels, ids = u
             uniq = observe(acc, v, ids)
             ast = ("prog", "e", None, ("uid",), ("ret", tuple(zip(labels, v))))
-            text = rp.render(ast)
+            text = rp.render(ast, sep=" /* w */ ")  # (one line, a block comment between all tokens: the layout is not part of the program)
+            if rp.classify(text) != ("accept", ast):
+                text = rp.render(ast)
             b = impl.build(text)
             acc.add("programs")
             if uniq is None or b[0] != "ok":
